@@ -144,11 +144,65 @@ theorem annotations_independent_of_arrival_order (l1 l2 : List BufModel.Annot.An
     BufModel.Annot.dedupSort l1 = BufModel.Annot.dedupSort l2 :=
   BufProofs.C20.dedupSort_perm l1 l2 h hk
 
+/-- Many diagnostics, no cap (the code that exists): the printed list is a function of the SET
+    of problems found — any two schedules (arrival orders) of the same problems print the same
+    list … -/
+theorem report_uncapped_schedule_irrelevant {α : Type} (le : α → α → Bool)
+    (trans : ∀ a b c : α, le a b → le b c → le a c)
+    (total : ∀ a b : α, le a b || le b a)
+    (antisymm : ∀ a b : α, le a b → le b a → a = b)
+    (arrived₁ arrived₂ : List α) (h : arrived₁.Perm arrived₂) :
+    reportSorted le none arrived₁ = reportSorted le none arrived₂ :=
+  sort_canonical le trans total antisymm arrived₁ arrived₂ h
+
+/-- … and it is COMPLETE: every problem found is printed exactly once (the harness compares the
+    number of reported diagnostics with its own bookkeeping of what it planted). -/
+theorem report_uncapped_complete {α : Type} (le : α → α → Bool) (arrived : List α) :
+    (reportSorted le none arrived).Perm arrived ∧ (reportSorted le none arrived).length = arrived.length :=
+  ⟨List.mergeSort_perm arrived le, (List.mergeSort_perm arrived le).length_eq⟩
+
+/-- A cap on the shared collector is invisible while the input has at most `n` problems (why no
+    small workspace notices one) … -/
+theorem report_capped_small_input_schedule_irrelevant {α : Type} (le : α → α → Bool)
+    (trans : ∀ a b c : α, le a b → le b c → le a c)
+    (total : ∀ a b : α, le a b || le b a)
+    (antisymm : ∀ a b : α, le a b → le b a → a = b)
+    (n : Nat) (arrived₁ arrived₂ : List α) (h : arrived₁.Perm arrived₂) (hsmall : arrived₁.length ≤ n) :
+    reportSorted le (some n) arrived₁ = reportSorted le (some n) arrived₂ := by
+  unfold reportSorted collectCapped
+  simp only
+  rw [List.take_of_length_le hsmall, List.take_of_length_le (h.length_eq ▸ hsmall)]
+  exact sort_canonical le trans total antisymm arrived₁ arrived₂ h
+
+/-- … with more than `n` problems it prints exactly `n` of them — fewer than were planted,
+    whatever the schedule (the count oracle) … -/
+theorem report_capped_truncates {α : Type} (le : α → α → Bool) (n : Nat) (arrived : List α)
+    (hmany : n < arrived.length) :
+    (reportSorted le (some n) arrived).length = n ∧ (reportSorted le (some n) arrived).length < arrived.length := by
+  have hl : (reportSorted le (some n) arrived).length = n := by
+    unfold reportSorted collectCapped collectSorted
+    simp only
+    rw [(List.mergeSort_perm _ le).length_eq, List.length_take]
+    omega
+  exact ⟨hl, by omega⟩
+
+/-- … and WHICH ones depends on the schedule: two arrival orders of the same two problems. -/
+theorem report_capped_counterexample :
+    reportSorted (fun a b : Nat => decide (a ≤ b)) (some 1) [1, 2] ≠
+      reportSorted (fun a b : Nat => decide (a ≤ b)) (some 1) [2, 1] := by
+  simp [reportSorted, collectCapped, collectSorted]
+
 -- non-vacuity
 example : verdict true [⟨false, false⟩, ⟨true, false⟩, ⟨false, true⟩] = true := by decide
 example (l₁ l₂ : List Nat) (h : l₁.Perm l₂) :
     collectSorted (fun a b => decide (a ≤ b)) l₁ = collectSorted (fun a b => decide (a ≤ b)) l₂ :=
   collect_then_sort_schedule_irrelevant _ (by intro a b c; simp; omega) (by intro a b; simp; omega)
     (by intro a b; simp; omega) l₁ l₂ h
+example (l₁ l₂ : List Nat) (h : l₁.Perm l₂) :
+    reportSorted (fun a b => decide (a ≤ b)) none l₁ = reportSorted (fun a b => decide (a ≤ b)) none l₂ :=
+  report_uncapped_schedule_irrelevant _ (by intro a b c; simp; omega) (by intro a b; simp; omega)
+    (by intro a b; simp; omega) l₁ l₂ h
+example : (reportSorted (fun a b : Nat => decide (a ≤ b)) (some 2) [3, 1, 2]).length = 2 :=
+  (report_capped_truncates _ 2 [3, 1, 2] (by decide)).1
 
 end BufProofs.C02
